@@ -112,23 +112,42 @@ class State:
         self.trace: list[str] = []  # ghost trace of observable effects (contract-specific)
         self.ghost: dict[str, Any] = {}
         self.n = 0
+        self.fwd: dict[int, tuple[Any, Any]] = {}
 
     def clone(self) -> "State":
         st = State()
-        memo: dict[int, Any] = {}
+        memo: dict[Any, Any] = {"__origs__": []}
         st.env = {k: _clone(v, memo) for k, v in self.env.items()}
         st.frames = [{k: _clone(v, memo) for k, v in fr.items()} for fr in self.frames]
         st.pc = list(self.pc)
         st.trace = list(self.trace)
         st.ghost = {k: _clone(v, memo) for k, v in self.ghost.items()}
         st.n = self.n
+        # forwarding map: a mutable object of an ANCESTOR state -> this state's copy of it. The interpreter holds values in its own
+        # (Python) locals while it evaluates sub-expressions; if such an evaluation forks, the forked state must not mutate (or store)
+        # the ancestor's object through the held reference: `tr` translates it (used where held references are mutated or stored).
+        fwd: dict[int, tuple[Any, Any]] = {}
+        for oid, (orig, cur) in self.fwd.items():
+            fwd[oid] = (orig, memo.get(id(cur), cur))
+        for orig in memo["__origs__"]:
+            fwd[id(orig)] = (orig, memo[id(orig)])
+        st.fwd = fwd
         return st
+
+    def tr(self, v):
+        """This state's copy of a mutable object that was obtained from an ancestor state (identity if it is this state's own)."""
+        if self.fwd and isinstance(v, (list, dict, set, Rec, SList, tuple)):
+            hit = self.fwd.get(id(v))
+            if hit is not None and hit[0] is v:
+                return hit[1]
+        return v
 
 
 def _clone(v, memo):
     if isinstance(v, (list, dict, set, Rec)):
         if id(v) in memo:
             return memo[id(v)]
+        memo.setdefault("__origs__", []).append(v)
         if isinstance(v, list):
             out: Any = []
             memo[id(v)] = out
@@ -151,6 +170,7 @@ def _clone(v, memo):
             return memo[id(v)]
         out = SList(v.length, v.elem, v.elem_sort)
         memo[id(v)] = out
+        memo.setdefault("__origs__", []).append(v)
         return out
     if isinstance(v, tuple) and any(isinstance(x, (list, dict, set, Rec, SList, tuple)) for x in v):
         # a tuple (or NamedTuple instance) is immutable itself but may HOLD mutable containers; forked paths must
@@ -167,6 +187,8 @@ def _clone(v, memo):
         else:
             out = v
         memo[id(v)] = out
+        if out is not v:
+            memo.setdefault("__origs__", []).append(v)
         return out
     if isinstance(v, Closure):
         return v  # closures capture their env by reference (cells); fine for the targets (no fork inside)
@@ -463,7 +485,27 @@ class Executor:
         if isinstance(n, ast.Pass):
             yield st, "next", None
             return
-        if isinstance(n, (ast.Import, ast.ImportFrom, ast.Global, ast.Nonlocal)):
+        if isinstance(n, (ast.Import, ast.ImportFrom)):
+            # a function-local import: the names are made available to `lookup` AFTER locals, globals and builtins (and natives keep
+            # their precedence, they are matched by source name before any lookup)
+            import importlib
+
+            table = st.ghost.setdefault("__imports__", {})
+            try:
+                if isinstance(n, ast.Import):
+                    for a in n.names:
+                        mod = importlib.import_module(a.name)
+                        table[a.asname or a.name.split(".")[0]] = mod if a.asname else importlib.import_module(a.name.split(".")[0])
+                else:
+                    mod = importlib.import_module("." * n.level + (n.module or ""), package=frame[0].get("__package__") or None)
+                    for a in n.names:
+                        if a.name != "*":
+                            table[a.asname or a.name] = getattr(mod, a.name) if hasattr(mod, a.name) else importlib.import_module(f"{mod.__name__}.{a.name}")
+            except Exception:  # noqa: BLE001  # the name stays unbound: using it is 'outside the subset'
+                pass
+            yield st, "next", None
+            return
+        if isinstance(n, (ast.Global, ast.Nonlocal)):
             yield st, "next", None
             return
         if isinstance(n, ast.Assign):
@@ -582,14 +624,22 @@ class Executor:
             yield from self._assign_all(targets[1:], v, st2, frame)
 
     def _assign(self, t, v, st: State, frame) -> Iterator[State]:
+        v = st.tr(v)  # a value held since before a fork: store this state's copy
         if isinstance(t, ast.Name):
             st.env[t.id] = v
             yield st
             return
         if isinstance(t, (ast.Tuple, ast.List)):
             vals = self.concrete_seq(v, st)
-            if any(isinstance(e, ast.Starred) for e in t.elts):
-                raise Unsupported("starred assignment target")
+            stars = [i for i, e in enumerate(t.elts) if isinstance(e, ast.Starred)]
+            if stars:
+                if len(stars) > 1 or len(vals) < len(t.elts) - 1:
+                    raise Unsupported("starred assignment target")
+                k = stars[0]
+                n_after = len(t.elts) - k - 1
+                mid = list(vals[k:len(vals) - n_after])
+                vals = list(vals[:k]) + [mid] + list(vals[len(vals) - n_after:] if n_after else [])
+                t = ast.Tuple(elts=[e.value if isinstance(e, ast.Starred) else e for e in t.elts], ctx=ast.Store())
             if len(vals) != len(t.elts):
                 raise Unsupported(f"unpacking {len(vals)} values into {len(t.elts)} targets")
             sts = [st]
@@ -599,6 +649,7 @@ class Executor:
             return
         if isinstance(t, ast.Attribute):
             for st2, o in self.ev(t.value, st, frame):
+                v = st2.tr(v)
                 if isinstance(o, Rec):
                     o.attrs[t.attr] = v
                     yield st2
@@ -612,6 +663,8 @@ class Executor:
         if isinstance(t, ast.Subscript):
             for st2, cont in self.ev(t.value, st, frame):
                 for st3, key in self.ev(_index(t), st2, frame):
+                    cont = st3.tr(cont)  # the key expression may have forked
+                    v = st3.tr(v)
                     if isinstance(cont, dict):
                         if is_sym(key):
                             raise Unsupported("symbolic key into a concrete dict")
@@ -902,6 +955,11 @@ class Executor:
             return [_unhash(k) for k in v]
         if isinstance(v, (set, frozenset)):
             return sorted(v, key=repr)
+        if isinstance(v, (type({}.keys()), type({}.items()), type({}.values()))):
+            # views of a concrete dict (keys may be wrapped symbolic values)
+            if isinstance(v, type({}.items())):
+                return [(_unhash(k), x) for k, x in v]
+            return [_unhash(k) for k in v] if isinstance(v, type({}.keys())) else list(v)
         if isinstance(v, (range, map, zip, filter, enumerate)) or hasattr(v, "__next__"):
             return list(v)
         if isinstance(v, str):
@@ -1042,7 +1100,7 @@ class Executor:
                     yield st2, vals
                     continue
                 if not any(is_sym(x) or isinstance(x, Rec) for x in vals):
-                    yield st2, "<f-string>" if holes else text
+                    yield st2, render_fstring(n, vals)  # all holes concrete: the string Python builds
                     continue
                 text2, vals2 = fold_template(n, vals)
                 fn = self.func("fmt:" + text2, *(["obj"] * len(vals2)), "obj")
@@ -1098,7 +1156,7 @@ class Executor:
     def ev_list(self, nodes, st, frame, i=0, acc=None) -> Iterator[tuple[State, Any]]:
         acc = acc or []
         if i >= len(nodes):
-            yield st, list(acc)
+            yield st, ([st.tr(x) for x in acc] if st.fwd else list(acc))
             return
         node = nodes[i]
         if isinstance(node, ast.Starred):
@@ -1420,6 +1478,8 @@ class Executor:
             return glob[name]
         if hasattr(builtins, name):
             return getattr(builtins, name)
+        if name in st.ghost.get("__imports__", {}):
+            return st.ghost["__imports__"][name]
         raise Unsupported(f"unbound name {name}")
 
     def lookup_native_method(self, o, attr: str):
@@ -1505,11 +1565,57 @@ class Executor:
 
     def apply(self, f, args: list, kwargs: dict, st: State, src_name: str = "") -> Iterator[tuple[State, Any]]:
         """Call value f. Yields (state, value | Exc)."""
+        if st.fwd:
+            # callee and arguments were evaluated one after the other; a later evaluation may have forked: use this state's copies
+            args = [st.tr(a) for a in args]
+            kwargs = {k: st.tr(v) for k, v in kwargs.items()}
+            if isinstance(f, Bound):
+                own = st.tr(f.self_val)
+                if own is not f.self_val:
+                    f = Bound(f.func, own)
+            else:
+                owner = getattr(f, "__self__", None)
+                if isinstance(owner, (list, dict, set)) and st.tr(owner) is not owner and isinstance(getattr(f, "__name__", None), str):
+                    f = getattr(st.tr(owner), f.__name__)
         if isinstance(f, tuple) and f and f[0] == "__native__":
             yield from f[1](self, st, args, kwargs)
             return
         if isinstance(f, tuple) and f and f[0] == "__property__":
             raise Unsupported("calling a property")
+        if isinstance(f, tuple) and f and f[0] == "__methodcaller__":
+            _, mname_, margs, mkw = f
+            if len(args) != 1 or kwargs:
+                raise Unsupported("methodcaller object called with other than one argument")
+            m = self.getattr(args[0], mname_, st)
+            yield from self.apply(m, list(margs), dict(mkw), st, f"obj.{mname_}")
+            return
+        import operator as _op
+
+        if f is _op.methodcaller and args and isinstance(args[0], str):
+            # operator.methodcaller(name, *a, **k): a callable x -> x.name(*a, **k) (kept symbolic: the arguments may be symbolic)
+            yield st, ("__methodcaller__", args[0], tuple(args[1:]), dict(kwargs))
+            return
+        if isinstance(f, (_op.attrgetter, _op.itemgetter, _op.methodcaller)) and len(args) == 1 and not kwargs and (_has_sym(args[0])):
+            ctor, cargs = f.__reduce__()[:2]
+            if ctor is _op.attrgetter and all(isinstance(a, str) and "." not in a for a in cargs):
+                vals = []
+                for a in cargs:
+                    v = self.getattr(args[0], a, st)
+                    if isinstance(v, tuple) and len(v) == 3 and v[0] == "__property__":
+                        outs_p = list(self.call_function(v[1], st, [v[2]], {}))
+                        if len(outs_p) != 1 or outs_p[0][0] is not st or outs_p[0][1] != "return":
+                            raise Unsupported("attrgetter on a property that forks or raises")
+                        v = outs_p[0][2]
+                    vals.append(v)
+                yield st, (vals[0] if len(vals) == 1 else tuple(vals))
+                return
+            if ctor is _op.itemgetter and len(cargs) == 1:
+                yield from self.getitem(args[0], cargs[0], st)
+                return
+            if ctor is _op.methodcaller and cargs and isinstance(cargs[0], str):
+                m = self.getattr(args[0], cargs[0], st)
+                yield from self.apply(m, list(cargs[1:]), {}, st, f"obj.{cargs[0]}")
+                return
         if isinstance(f, Bound):
             if callable(f.func) and not isinstance(f.func, Closure) and (f.func in self.natives.values() or f.func in _SMAP_METHODS.values()):
                 yield from f.func(self, st, [f.self_val, *args], kwargs)
@@ -1556,6 +1662,55 @@ class Executor:
         if f is builtins.isinstance and not is_sym(args[0]) and not isinstance(args[0], Rec):
             yield st, isinstance(*args)
             return
+        def _numeric(x):
+            return (isinstance(x, SV) and x.sort in {"int", "real"}) or (isinstance(x, (int, float)) and not isinstance(x, bool))
+
+        if f is builtins.sorted and len(args) == 1 and set(kwargs) <= {"key", "reverse"} and isinstance(args[0], (list, tuple, dict, set, frozenset)) \
+                and not _has_sym(kwargs.get("reverse", False)):
+            # sorted() of a concrete collection of concrete elements (e.g. the keys of a dict whose VALUES are symbolic), with a key
+            # function whose results are concrete: the real sort
+            items = self.concrete_seq(args[0], st)
+            if not any(_has_sym(x) for x in items):
+                keyf = kwargs.get("key")
+                keys: list | None = list(items)
+                if keyf is not None:
+                    keys = []
+                    for x in items:
+                        outs_k = list(self.apply(keyf, [x], {}, st))
+                        if len(outs_k) != 1 or outs_k[0][0] is not st or isinstance(outs_k[0][1], Exc) or _has_sym(outs_k[0][1]):
+                            keys = None
+                            break
+                        keys.append(outs_k[0][1])
+                if keys is not None:
+                    try:
+                        order = sorted(range(len(items)), key=lambda i: keys[i], reverse=bool(kwargs.get("reverse", False)))
+                    except TypeError as e:
+                        yield st, Exc("TypeError", e.args)
+                        return
+                    yield st, [items[i] for i in order]
+                    return
+        if f is builtins.abs and len(args) == 1 and isinstance(args[0], SV) and args[0].sort in {"int", "real"}:
+            yield st, SV(z3.If(args[0].t >= 0, args[0].t, -args[0].t), args[0].sort)
+            return
+        if f in (builtins.min, builtins.max) and not kwargs and args:
+            items = list(args) if len(args) > 1 else (self.concrete_seq(args[0], st) if isinstance(args[0], (list, tuple)) else None)
+            if items and all(_numeric(x) for x in items) and any(isinstance(x, SV) for x in items):
+                want = "real" if any((isinstance(x, SV) and x.sort == "real") or isinstance(x, float) for x in items) else "int"
+                terms = [to_z3(x, want) for x in items]
+                terms = [z3.ToReal(t) if want == "real" and t.sort() == z3.IntSort() else t for t in terms]
+                acc_t = terms[0]
+                for t in terms[1:]:
+                    acc_t = z3.If(t < acc_t, t, acc_t) if f is builtins.min else z3.If(t > acc_t, t, acc_t)
+                yield st, SV(acc_t, want)
+                return
+        if f is builtins.sum and not kwargs and 1 <= len(args) <= 2 and isinstance(args[0], (list, tuple)):
+            items = self.concrete_seq(args[0], st)
+            if all(_numeric(x) for x in items) and any(isinstance(x, SV) for x in items) and (len(args) == 1 or _numeric(args[1])):
+                total = args[1] if len(args) == 2 else 0
+                for x in items:
+                    total = self.binop(ast.Add(), total, x, st)
+                yield st, total
+                return
         if f is builtins.type and len(args) == 1 and not kwargs and isinstance(args[0], Rec) and args[0].real_class is not None:
             yield st, args[0].real_class  # type(record) = the real class the record stands for
             return
@@ -1674,7 +1829,33 @@ class Executor:
         # an in-place method of a concrete container (list/dict/set) with symbolic arguments has an EFFECT: abstracting it as a pure
         # function would silently drop the mutation. Not modelled -> outside the subset.
         owner = getattr(f, "__self__", None)
-        if isinstance(owner, (list, dict, set, bytearray)) and getattr(f, "__name__", "") in {
+        mname = getattr(f, "__name__", "")
+        if isinstance(owner, (list, set)) and not kwargs:
+            # exact models of the common in-place methods on CONCRETE containers whose new elements are symbolic (identity-keyed
+            # wrappers in sets, as a set comprehension builds them)
+            if isinstance(owner, list) and mname == "append" and len(args) == 1:
+                owner.append(args[0])
+                yield st, None
+                return
+            if isinstance(owner, list) and mname == "extend" and len(args) == 1 and isinstance(args[0], (list, tuple)):
+                owner.extend(args[0])
+                yield st, None
+                return
+            if isinstance(owner, list) and mname == "insert" and len(args) == 2 and isinstance(args[0], int) and not isinstance(args[0], bool):
+                owner.insert(args[0], args[1])
+                yield st, None
+                return
+            if isinstance(owner, set) and mname == "add" and len(args) == 1:
+                owner.add(_hashable(args[0]))
+                yield st, None
+                return
+            if isinstance(owner, set) and mname == "update" and all(isinstance(a, (list, tuple, set, frozenset, dict)) for a in args):
+                for a in args:
+                    for x in self.concrete_seq(a, st):
+                        owner.add(_hashable(_unhash(x)))
+                yield st, None
+                return
+        if isinstance(owner, (list, dict, set, bytearray)) and mname in {
                 "update", "add", "append", "extend", "insert", "remove", "discard", "pop", "popitem", "clear", "setdefault", "sort", "reverse",
                 "difference_update", "intersection_update", "symmetric_difference_update", "__setitem__", "__delitem__", "__ior__", "__iand__", "__isub__"}:
             raise Unsupported(f"in-place {type(owner).__name__}.{f.__name__} with symbolic arguments")
@@ -1686,6 +1867,30 @@ class Executor:
             nm = "apply"
         uf = self.func(f"call_{nm}_{len(arg_terms)}" + "".join(f"_{k}" for k in sorted(kwargs)), *(["obj"] * len(arg_terms)), "obj")
         yield st, SV(uf(*arg_terms) if arg_terms else z3.Const(f"call_{nm}_0", Obj), "obj")
+
+
+def render_fstring(n: ast.JoinedStr, vals: list) -> str:
+    """The string an f-string evaluates to when every hole has a concrete value (conversions and constant format specs applied)."""
+    out, i = "", 0
+    for v in n.values:
+        if isinstance(v, ast.Constant):
+            out += str(v.value)
+            continue
+        x = vals[i]
+        i += 1
+        if v.conversion == 114:
+            x = repr(x)
+        elif v.conversion == 115:
+            x = str(x)
+        elif v.conversion == 97:
+            x = ascii(x)
+        spec = ""
+        if v.format_spec is not None:
+            if not all(isinstance(c, ast.Constant) for c in v.format_spec.values):
+                raise Unsupported("f-string with a computed format spec")
+            spec = "".join(str(c.value) for c in v.format_spec.values)
+        out += format(x, spec)
+    return out
 
 
 def fold_template(n: ast.JoinedStr, vals: list) -> tuple[str, list]:
@@ -1802,17 +2007,30 @@ def _unhash(k):
     return k.v if isinstance(k, _HK) else k
 
 
+_SERIALS: dict[int, tuple[Any, int]] = {}
+
+
+def _serial(v) -> int:
+    """A number for an object that is named by identity. The object is kept alive: a recycled id() of a dead object would give two
+    different objects the same constant."""
+    hit = _SERIALS.get(id(v))
+    if hit is None or hit[0] is not v:
+        hit = (v, len(_SERIALS) + 1)
+        _SERIALS[id(v)] = hit
+    return hit[1]
+
+
 def _const_name(v) -> str:
     if v is None or isinstance(v, (bool, int, str, float, Fraction)):
         return f"{type(v).__name__}:{v!r}"
     if isinstance(v, type):
         return f"class:{v.__module__}.{v.__qualname__}"
     if isinstance(v, Rec):
-        return f"rec:{v.cls_name}@{id(v)}"
+        return f"rec:{v.cls_name}@{_serial(v)}"
     q = getattr(v, "__qualname__", None)
     if q:
         return f"fn:{getattr(v, '__module__', '')}.{q}"
-    return f"{type(v).__name__}@{id(v)}"
+    return f"{type(v).__name__}@{_serial(v)}"
 
 
 def _dotted(n) -> str:
